@@ -86,9 +86,20 @@ async def _periodic(rng, d):
 
                 asyncio.ensure_future(send_later())
 
+    async def pinger(every, until):
+        # the server's own respond-flagged KEEPALIVEs: arrivals in the sense of the statement, acknowledged or not
+        k = 0
+        while until is None or loop.time() - t0 <= until:
+            await asyncio.sleep(every)
+            k += 1
+            peer.send({'type': 'KEEPALIVE', 'sid': 0, 'respond': True, 'data': b'ping%d' % k, 'position': 0})
+
     ack_task = asyncio.ensure_future(acker())
+    ping_task = asyncio.ensure_future(pinger(*d['ping'])) if d.get('ping') else None
     await asyncio.sleep(d['duration'])
     ack_task.cancel()
+    if ping_task is not None:
+        ping_task.cancel()
     # arrivals at the client: its own tap
     ka_recv = [e[0] for e in rw.link.tap.events if e[1] == 'c' and e[2] == 'recv' and e[3]['type'] == 'KEEPALIVE']
     ka_sent = [e[0] for e in rw.link.tap.events if e[1] == 'c' and e[2] == 'send' and e[3]['type'] == 'KEEPALIVE'
@@ -96,6 +107,11 @@ async def _periodic(rng, d):
     timeouts = [e for e in rw.world.events if e['kind'] == 'on_keepalive_timeout']
     t_end = loop.time()
     await rw.close()
+    pings = [e[3] for e in rw.link.tap.events if e[1] == 'c' and e[2] == 'recv' and e[3]['type'] == 'KEEPALIVE'
+             and e[3].get('respond')]
+    pongs = [e[3] for e in rw.link.tap.events if e[1] == 'c' and e[2] == 'send' and e[3]['type'] == 'KEEPALIVE'
+             and not e[3].get('respond')]
+    d['_pings'], d['_pongs'] = pings, pongs
     return t0, ka_sent, ka_recv, [(e['t'], e['since']) for e in timeouts], t_end
 
 
@@ -144,8 +160,18 @@ def run_case(gen, idx, rng, tier):
     d = {'P': P, 'L': L, 'ack': list(ack), 'link': rng.choice(['bytes', 'messages']),
          'link_delay': rng.choice([0, 0, 1e-4, 1e-3]), 'duration': max(12 * P, 4 * L) + rng.choice([0, P / 2])}
     d['ack'] = ack
+    if rng.random() < 0.3:
+        # server-originated pings at intervals below / around / above the lifetime, for ever or until some time
+        d['ping'] = (L * rng.choice([0.3, 0.9, 1.0, 1.2, 2.5]), rng.choice([None, None, rng.choice([1, 3, 6]) * P]))
     t0, ka_sent, ka_recv, timeouts, t_end = vloop.run(_periodic(rng, d))
-    public = dict(d, ack=list(ack))
+    public = {k: v for k, v in dict(d, ack=list(ack)).items() if not k.startswith('_')}
+    if d.get('ping') and first_timeout_none(timeouts):
+        want = [bytes(f.get('data') or b'') for f in d['_pings']]
+        got = [bytes(f.get('data') or b'') for f in d['_pongs']]
+        st['echoes_checked'] += len(want)
+        if got != want[:len(got)] or len(got) < len(want) - 1:
+            wit.append({'clause': 'echo-missing' if len(got) < len(want) else 'unsolicited-or-duplicate-echo',
+                        'detail': {'case': public, 'pings_received': len(want), 'echoes_sent': len(got)}})
     eps = 1e-3 + 2 * d['link_delay']
     # (b) periodic emission while the client considers the server alive
     first_timeout = timeouts[0][0] if timeouts else None
@@ -192,7 +218,12 @@ def run_case(gen, idx, rng, tier):
                         'detail': {'case': public, 'detected_after': first_timeout - last_arrival, 'two_lifetimes': 2 * L}})
     nt = len(ka_sent) >= 3
     return {'evals': 1, 'nt_keys': [short_hash(public)] if nt else [], 'deciding': st, 'witnesses': wit[:3],
-            'counts': {'ack_' + ack[0]: 1, 'timeouts_observed': len(timeouts)}, 'sample': public}
+            'counts': {'ack_' + ack[0]: 1, 'timeouts_observed': len(timeouts), 'runs_with_server_pings': 1 if d.get('ping') else 0},
+            'sample': public}
+
+
+def first_timeout_none(timeouts):
+    return not timeouts
 
 
 def classify(w):
